@@ -3,6 +3,7 @@ From Coq Require Import List NArith ZArith Bool String.
 From Coq Require Import Strings.Byte.
 From NfpmV Require Import Lib.Bytes Model.Path Model.Content Model.Prepare Model.Payload Spec.C05 Spec.C01 Spec.C04.
 From NfpmV Require Import Proofs.KeyFacts Proofs.PlanFacts Proofs.C05Proofs Proofs.C01Proofs Proofs.C04Proofs Proofs.C04Plan Proofs.C04Parents.
+From NfpmV Require Import Model.Cpio Proofs.CpioProofs.
 Import ListNotations.
 Open Scope list_scope.
 
@@ -51,3 +52,30 @@ Theorem C04_root_directory_member_refuted :
 Proof. split; [|reflexivity]. assert (H : existsb (fun c => match c with WEmptyName => true | _ => false end) (check_names FArch [([], true); (B "sub/", true)]) = true) by (vm_compute; reflexivity).
   apply existsb_exists in H. destruct H as (c & Hin & Hc). destruct c; try discriminate Hc. exact Hin. Qed.
 Print Assumptions C04_root_directory_member_refuted.
+
+(* THE RPM PAYLOAD CONTAINER. The cpio "newc" archive, as rpmpack's writer lays it out (110-byte header of
+   8-digit upper-case hexadecimal fields, NUL-terminated name, padding to 4 bytes after name and after data, a
+   TRAILER!!! entry with link count 1), read back by the reader yields exactly the entries written - every
+   field, any number of entries, any names, modes, sizes and bodies that fit the 8-digit fields - and nothing
+   is left after the trailer. *)
+Theorem C04_cpio_roundtrip :
+  forall es, Forall wf_centry es -> cpio_centries (S (List.length es)) (cpio_encode es) = Some (es, []).
+Proof. exact cpio_roundtrip_full. Qed.
+Print Assumptions C04_cpio_roundtrip.
+
+(* what the per-run check [cpio_reencodes] on the payload of a real rpm means: the real bytes ARE the model
+   writer's output for the entries the model reader finds in them *)
+Theorem C04_cpio_check_sound :
+  forall s, cpio_reencodes s = true ->
+  exists es, cpio_centries (S (List.length s)) s = Some (es, []) /\ cpio_encode es = s.
+Proof. exact reencodes_sound. Qed.
+Print Assumptions C04_cpio_check_sound.
+
+(* non-vacuity: a two-entry archive with a 5-byte body meets the hypothesis and round-trips *)
+Example C04_cpio_example :
+  let e1 := {| ce_name := B "./usr"; ce_mode := N.to_nat 16877; ce_data := []; ce_pre := B "00000001";
+               ce_mid := B "00000000000000000000000200000000"; ce_dev := B "00000000000000000000000000000000"; ce_chk := B "00000000" |} in
+  let e2 := {| ce_name := B "./usr/a"; ce_mode := N.to_nat 33188; ce_data := B "hello"; ce_pre := B "00000002";
+               ce_mid := B "0000000000000000000000015F5E1000"; ce_dev := B "00000000000000000000000000000000"; ce_chk := B "00000000" |} in
+  cpio_reencodes (cpio_encode [e1; e2]) = true /\ List.length (cpio_encode [e1; e2]) = 368.
+Proof. vm_compute. split; reflexivity. Qed.
